@@ -9,5 +9,5 @@ git apply "$patch" || { echo "seedcheck: patch does not apply" >&2; exit 2; }
 trap 'git -C /repo checkout -- . ' EXIT
 cd /verif
 for p in "$@"; do
-  bin/raftlint -verif /verif -no-evidence -property "$p" 2>&1 | grep -E "violated|require:|found:|VIOLATION|obligations" | cut -c1-400
+  ${RAFTLINT:-bin/raftlint} -verif /verif -no-evidence -property "$p" 2>&1 | grep -E "violated|require:|found:|VIOLATION|obligations" | cut -c1-400
 done
